@@ -1,0 +1,15 @@
+//go:build verif
+
+package transport
+
+// Contracts for the deductive verifier under /verif (govc). This file contains
+// only comments: it adds no code with or without the build tag.
+
+//@ immutable localPeer rd, wr
+
+//@ func LinkedPeersQSize
+//@   props C07
+//@   modifies nothing
+//@   ensures [router-to-client-queue-bounded] is(result1, *localPeer) && is(result0, *localPeer) && chancap(result1.(*localPeer).wr) == (queueSize == 0 ? 64 : queueSize)
+//@   ensures [linked] result0.(*localPeer).rd == result1.(*localPeer).wr && result1.(*localPeer).rd == result0.(*localPeer).wr
+//@   ensures [client-to-router-unbuffered] chancap(result0.(*localPeer).wr) == 0
